@@ -869,5 +869,25 @@ def shrink(case):
                 yield ["route", routes, [p[:i] + p[i + 1:]]] + case[3:]
 
 
+def extra_obligations(tier):
+    """BaseRouter.search, Route.matches and compile_path of baize/routing.py and Router.__call__ of baize/wsgi/routing.py and
+    baize/asgi/routing.py are translated to Gallina from the source in BAIZE_REPO as it is now (tools/py2coq_c08.py), and coqc
+    re-checks C08/Translated.v against the fresh definitions: the translated loop is the first-match scan for EVERY
+    route.matches (search_translated_any) and, with the model's route_match for route.matches, the model's search
+    (search_translated); the translated Route.matches, with the model's match_segs / placeholder types / to_python for
+    fullmatch / path_convertors[..] / to_python, is the model's route_match (matches_translated); the translated compile_path,
+    with the matches the model's try_param finds for PARAM_REGEX.finditer and the model's ty_of_name for CONVERTOR_TYPES, is the
+    model's scan1 (compile_path_translated); the two __call__ bodies, with the model's search for self.search, are the model's
+    wsgi_router / asgi_router (and KeyError / RuntimeError where the model does not speak).  C08/PyLib.v (dict, dict
+    comprehension, try/except, lstrip, slices) and the finditer instance are compared with the interpreter by evaluation.
+    A source the translator refuses is not applicable (None)."""
+    import importlib.util
+    import os
+    spec = importlib.util.spec_from_file_location("py2coq_c08", os.path.join(core.VERIF, "tools", "py2coq_c08.py"))
+    tr = importlib.util.module_from_spec(spec)
+    spec.loader.exec_module(tr)
+    return tr.obligations(core.REPO, core.VERIF)
+
+
 if __name__ == "__main__":
     core.main(sys.modules[__name__])
